@@ -19,6 +19,10 @@ CHECKS['C14'] = ('3/C14', 'The real per-step pressure-drop methods are run over 
                  'rounded steps, grid positions incl. exactly on a plane, all coefficients); closed forms, non-negativity and '
                  'exactly-once grid counting are SMT queries on every path of the grid-in-step test.')
 
+CHECKS['C20'] = ('3/C20', 'Orificing._group runs symbolically as a whole under a fork-depth budget and, inductively, as one lifted loop '
+                 'iteration plus loop-exit/epilogue from arbitrary states; distribute() as lifted prologue, one iteration from an '
+                 'arbitrary state, epilogue, and a bounded whole run; partition, order, count, conservation and limit claims are SMT queries.')
+
 NOT_APPLICABLE = {
     'C16': ('No symbolic dimension for a solver: process schedules/multiprocessing/file output, bitwise IEEE determinism, and '
             'object-identity/type mutation of the input dictionary on `is None`/key-presence branches (DESIGN section 4).'),
